@@ -566,6 +566,8 @@ def check(ctx) -> None:
     # an earlier chunk (shared with C06-B10)
     c06.rule_b10(ctx, "C05-P12")
     rule_p13(ctx)
+    # P15: values computed row by row stay with their row when they are put back into a frame (label alignment)
+    c06.rule_index_alignment(ctx, "C05-P15")
     # P14: a fault while one reaction is worked on stays with that reaction (shared with C06-B14)
     c06.rule_b14(ctx, ctx.pipeline_reachable(), "C05-P14")
 
